@@ -105,12 +105,12 @@ Definition hand_emol_ints : list Z :=
 Definition hand_emol_split_strings : list string :=
   ["("%string; "("%string; ")"%string; """"%string; """"%string; " "%string; ""%string; ""%string].
 Definition hand_rxn_slices : list (string * string) :=
-  [(""%string, "3"%string); ("3"%string, "6"%string); ("6"%string, ""%string); ("start + 6"%string, ""%string); ("start"%string, ""%string); (""%string, "reactants_count"%string);
+  [(""%string, "3"%string); ("3"%string, "6"%string); ("6"%string, ""%string); ("start + 5"%string, ""%string); ("start"%string, ""%string); (""%string, "reactants_count"%string);
    ("reactants_count"%string, "products_count"%string); ("products_count"%string, ""%string)].
 Definition hand_rxn_strings : list string :=
   ["$MOL"%string; "reactants"%string; "products"%string; "reagents"%string; "title"%string; "log"%string].
 Definition hand_rxn_ints : list Z :=
-  [4; 3; 3; 6; 6; 0; 1; 1; 0; 6; 7; 1; 1; 1; 1; 1; 1].
+  [4; 3; 3; 6; 6; 0; 1; 1; 0; 5; 6; 1; 1; 1; 1; 1; 1].
 Definition hand_erxn_slices : list (string * string) :=
   [("13"%string, ""%string); ("start + 5"%string, ""%string); ("start"%string, ""%string); (""%string, "reactants_count"%string); ("reactants_count"%string, "products_count"%string); ("products_count"%string, ""%string)].
 Definition hand_erxn_strings : list string :=
